@@ -5,6 +5,7 @@ mod alloc;
 mod util;
 #[path = "gen.rs"]
 mod r#gen;
+mod c09;
 mod c10;
 mod c11;
 mod c12;
@@ -52,6 +53,8 @@ fn main() {
         "e1" => e1::run(&args),
         "e2" => e2::run(&args),
         "e3" => e3::run(&args),
+        "c09" => c09::run(&args),
+        "c09regions" => c09::run_regions(&args),
         "c20race" => c20::run(&args),
         "e3child" => e3::run_child(&args),
         "e2child" => e2::run_child(&args),
